@@ -68,6 +68,8 @@ THEOREMS = [P + n for n in (
     # round 4: reuse sessions
     'inputs_not_written', 'no_module_state', 'call_stateless', 'session_calls_independent',
     'session_calls_only', 'specSession_append', 'session_call_good', 'session_predictions_agree',
+    # round 5: the entering threshold follows the rounding level of the products
+    'leaf_nnls_tol_iter', 'nnls_tol_at_start', 'nnls_dependent_gradient_zero',
 )]
 RULE = ('one PRNG; kind fit: 2-4 basis RDMs x 4-7 conditions (small integers, scaled by 1/10/100, '
         'full rank on the selected entries), 1-4 training RDMs (signal = non-negative mixture of the '
@@ -83,7 +85,11 @@ RULE = ('one PRNG; kind fit: 2-4 basis RDMs x 4-7 conditions (small integers, sc
         'succession by different fitters, criteria (centring ones first) and routes, with and without pattern '
         'indices (same index array and subsample reused), one sigma_k array refilled in place, one theta array '
         'reused, caller edits of the data in between; every call judged against the session\'s own numbers, all '
-        'live objects bit-identical after every call, earlier return values intact at the end. Non-trivial = the '
+        'live objects bit-identical after every call, earlier return values intact at the end. Round 5: '
+        'rank-deficient training views for regress / regress_nn under all four criteria - a draw with three distinct '
+        'conditions and repeats (family fewcond; generic, nearly collinear or nearly opposite basis RDMs; `cancel`: '
+        'max(|G|x) >= 1000 max|c| at the non-negative optimum), dup / nested / collinear RDMs seen through a draw with '
+        'repeats, entries divided by 7 / 10 / 3 (dependencies up to rounding); nnls style rankdef. Non-trivial = the '
         'optimum is not a unit vector and the basis has >= 2 RDMs (fit) / k >= 2 (predict); '
         'distinct = distinct case contents.')
 METHODS = ['cosine', 'corr', 'cosine_cov', 'corr_cov']
@@ -96,12 +102,17 @@ BRANCHES = (['method:' + m for m in METHODS] + ['fitter:' + f for f in FITTERS] 
              'class:fixed', 'class:select', 'class:weighted', 'class:interpolate',
              'theta:none', 'theta:negative', 'form:rdms', 'form:vectors', 'form:matrices',
              'nnls:V'] + ['family:' + f_ for f_ in
-                          ('nested', 'collinear', 'dup', 'zero', 'const', 'basis_is_data')] +
+                          ('nested', 'collinear', 'dup', 'zero', 'const', 'basis_is_data', 'fewcond')] +
             ['gram:singular:nn', 'gram:singular:ols', 'nn:multi_drop',
              'nnls:dup', 'nnls:nested', 'nnls:multi_drop',
              'route:Model.fit:optimize', 'route:Model.fit:select', 'route:Model.fit:interpolate',
              'objective:optimize', 'objective:optimize_positive', 'select:undefined_candidate',
              'family:anti', 'route:Fitter', 'malformed:method', 'nn:all_zero'] +
+            ['view:fewcond:' + x_ for x_ in ['regress', 'regress_nn'] + METHODS] +
+            ['view:repeats:' + f_ + ':' + x_ for f_ in ('dup', 'nested', 'collinear')
+             for x_ in ('regress', 'regress_nn')] +
+            ['view:repeats:centred', 'view:inexact:regress', 'view:inexact:regress_nn', 'view:cancel',
+             'nnls:rankdef'] +
             ['kind:session'] + ['session:' + k_ for k_ in ses.SKINDS] +
             ['session:fit:' + f_ for f_ in FITTERS + ['mock']] +
             ['session:route:func', 'session:route:Fitter', 'session:route:Model.fit',
@@ -122,7 +133,10 @@ ASSUMPTIONS = [
     'their result must never beat the proven optimum and must reach it within 1e-5 (BFGS, no '
     'sigma_k), 0.3 (BFGS with sigma_k: the loss then carries conjugate-gradient noise) or 2e-5 '
     '(bounded search) on signal-carrying data',
-    'rank-deficient selections (fewer distinct entries than basis RDMs) are outside the generated domain',
+    'rank-deficient training views (fewer distinct entries than basis RDMs; dependent, duplicated, nested basis '
+    'RDMs, exactly or up to rounding) ARE in the generated domain since round 5: the maximiser is then not '
+    'unique, only scores are compared and the reference optimum is computed on independent subsets of the basis '
+    '(scipy.optimize.nnls is not used there: it returns weights of 1e16 on columns that are rounding noise)',
 ]
 TRUSTED_EXTRA = [
     'contract: np.linalg.solve(X, y) returns theta with X theta = y (hypothesis of ols_maximises; the '
@@ -375,16 +389,24 @@ def _selection(rng, n, desc, by, style):
         k = rng.randint(min(4, len(labels)), len(labels))
         v = rng.sample(labels, k)
         return v
+    if style == 'few':
+        # round 5: a bootstrap-like draw with only THREE distinct conditions (3 distinct entries, each
+        # possibly several times; pairs of a condition with itself are NaN): the training view of k >= 4
+        # basis RDMs (k >= 3 after mean removal) is rank-deficient whatever the RDMs are
+        v = rng.sample(labels, 3)
+        v += [rng.choice(v) for _ in range(rng.randint(1, 3))]
+        rng.shuffle(v)
+        return v
     while True:
         v = [rng.choice(labels) for _ in range(len(labels) + rng.randint(0, 2))]
         if len(set(v)) >= min(3, len(labels)) and len(set(v)) < len(v):
             return v
 
 
-FAMILIES = ['nested', 'collinear', 'dup', 'zero', 'const', 'basis_is_data', 'anti']
+FAMILIES = ['nested', 'collinear', 'dup', 'zero', 'const', 'basis_is_data', 'anti', 'fewcond']
 
 
-def _family_rows(rng, family, k, m, r, positive_signal=False):
+def _family_rows(rng, family, k, m, r, positive_signal=False, cancel=False):
     """structured basis sets (small integers, so linear dependencies are exact):
       nested        one RDM = 3/10 * (sum of the others) + a small part of its own, data explained by
                     that RDM minus a bit of the others (the active-set solver takes the others in
@@ -395,6 +417,39 @@ def _family_rows(rng, family, k, m, r, positive_signal=False):
       const         one RDM is constant (= zero for the correlation criteria)
       basis_is_data the training RDMs are the basis RDMs themselves
     """
+    if family == 'fewcond':
+        # generic RDMs (optionally two nearly collinear ones: large weights of opposite effect, so that the
+        # products |ATA| x are far larger than A^T y); the rank deficiency comes from the selection
+        basis = [[rng.randint(0, 8) for _ in range(m)] for _ in range(k)]
+        u = 0.5 if cancel else rng.random()
+        if k >= 3 and u < 0.3:
+            i, j = rng.sample(range(k), 2)
+            basis[j] = [3 * basis[i][e] + rng.choice([-1, 0, 0, 1]) for e in range(m)]
+        elif k >= 3 and u < 0.75:
+            # two RDMs that are nearly OPPOSITE after mean removal, data along their small difference: both get
+            # large positive weights whose effects cancel (|ATA| x is 10-1000 times A^T y - the situation in
+            # which the gradient of a dependent third RDM is rounding noise far above 100 eps max|A^T y|)
+            i, j = rng.sample(range(k), 2)
+            f_ = rng.choice([1, 2, 3])
+            s_ = rng.choice([10, 30, 100]) if cancel else rng.choice([1, 3, 10])
+            delta = [rng.choice([-1, 0, 0, 1]) for _ in range(m)]
+            basis[i] = [s_ * v for v in basis[i]]
+            basis[j] = [f_ * (8 * s_ - basis[i][e]) + delta[e] + 1 for e in range(m)]
+            g_ = rng.choice([1, 2, 3])
+            data = [[6 + g_ * delta[e] + (0 if cancel else rng.choice([0, 0, 0, 1])) for e in range(m)]
+                    for _ in range(r)]
+            return basis, data
+        th = [rng.choice([0, 1, 1, 2, 3]) for _ in range(k)]
+        if rng.random() < 0.3 and not positive_signal:
+            th = [rng.choice([-2, -1, 1, 2, 3]) for _ in range(k)]
+        if sum(abs(t) for t in th) == 0:
+            th[0] = 1
+        if rng.random() < 0.3:
+            data = [[rng.randint(0, 9) for _ in range(m)] for _ in range(r)]
+        else:
+            data = [[sum(th[i] * basis[i][e] for i in range(k)) + rng.randint(-2, 2) + 6 for e in range(m)]
+                    for _ in range(r)]
+        return basis, data
     parts = [[rng.randint(0, 5) for _ in range(m)] for _ in range(k - 1)]
     tot = [sum(p[e] for p in parts) for e in range(m)]
     own = [rng.randint(0, 2) for _ in range(m)]
@@ -438,7 +493,14 @@ def _family_rows(rng, family, k, m, r, positive_signal=False):
 
 
 def _fit_case(rng, fitter, method, tier, small=False, malformed=False, family=None, multi_drop=False,
-              via_fit=False, undefined_candidate=False):
+              via_fit=False, undefined_candidate=False, inexact=False, repeats=False, cancel=False):
+    """round 5: `family='fewcond'` = rank deficiency produced by the pattern selection (three distinct
+    conditions, repeats); `inexact` = every RDM entry divided by 7 / 10 / 3 (no longer exactly representable:
+    a linear dependency then holds only up to rounding, centring rounds differently per RDM); `repeats` =
+    the selection is a draw with repeats (duplicated rows in the training view); `cancel` (fewcond, centring
+    criteria) = the non-negative optimum has large weights of opposite effect: max(|G| x) >= 1000 max|c| at the
+    optimum computed by the harness's own enumeration - there the rounding noise in the gradient of a dependent
+    RDM is far above 100 eps max|c|"""
     for _attempt in range(400):
         n = rng.randint(4, 5 if small else (6 if tier == 'quick' else 7))
         m = n * (n - 1) // 2
@@ -447,11 +509,17 @@ def _fit_case(rng, fitter, method, tier, small=False, malformed=False, family=No
             k = rng.randint(2, 4)
         if family is not None:
             k = rng.randint(3, 5 if family == 'nested' and not small else 4)
+        if family == 'fewcond':
+            k = rng.randint(3, 4) if method.startswith('corr') else rng.randint(4, 5)
         by = rng.choice(['index', 'cond', 'cond'])
         desc = rng.sample(range(1, 3 * n), n)
         if by == 'cond' and rng.random() < 0.15:
             desc[rng.randrange(1, n)] = desc[0]          # two conditions share a label
         style = rng.choice(['none', 'subset', 'repeats', 'repeats'])
+        if repeats:
+            style = 'repeats'
+        if family == 'fewcond':
+            style = 'few'
         value = _selection(rng, n, desc, by, style)
         scale = rng.choice([1, 1, 1, 10, 100]) if fitter in ('regress', 'regress_nn') else 1
         basis = [[rng.randint(0, 5) * scale for _ in range(m)] for _ in range(k)]
@@ -464,7 +532,8 @@ def _fit_case(rng, fitter, method, tier, small=False, malformed=False, family=No
             dstyle = 'family'
             # the optimisers (and the scalar search) are observed on data with a positive optimum only
             basis, data = _family_rows(rng, family, k, m, r,
-                                       positive_signal=fitter in ('optimize', 'optimize_positive', 'interpolate'))
+                                       positive_signal=fitter in ('optimize', 'optimize_positive', 'interpolate'),
+                                       cancel=cancel)
         elif dstyle == 'signal':
             th = [rng.choice([0, 1, 1, 2, 3]) for _ in range(k)]
             if fitter == 'interpolate':
@@ -489,12 +558,21 @@ def _fit_case(rng, fitter, method, tier, small=False, malformed=False, family=No
             # the criteria do not depend on the scale of a training RDM
             fac = [rng.choice([1, 1, 3, 10]) for _ in range(r)]
             data = [[v * fac[i] for v in row] for i, row in enumerate(data[:r])] + data[r:]
+        if inexact:
+            q = rng.choice([7, 10, 3])
+            basis = [[rat(F(v, q)) for v in row] for row in basis]
+            if rng.random() < 0.5:
+                data = [[rat(F(v, q)) for v in row] for row in data]
         case = {'kind': 'fit', 'fitter': fitter, 'method': method, 'n': n, 'desc': desc, 'by': by,
                 'value': value, 'basis': basis, 'data': data, 'sigma': None,
                 'normalize': rng.random() < 0.6, 'scale': scale, 'dstyle': dstyle,
                 'common_nan': None, 'malformed': False, 'cseed': rng.randint(0, 10 ** 6)}
         if family is not None:
             case['family'] = family
+        if inexact:
+            case['inexact'] = True
+        if cancel:
+            case['cancel'] = True
         if via_fit:
             # the public route: Model.fit -> default fitter of the class (normalize at its default)
             case['via'] = 'fit'
@@ -517,6 +595,8 @@ def _fit_case(rng, fitter, method, tier, small=False, malformed=False, family=No
                 continue        # wanted: several coefficients leave the passive set in one go
             if family == 'anti' and float(np.max(_problem(case).best_nonneg()[0])) > 0:
                 continue        # wanted: the constrained optimum is theta = 0
+            if cancel and _cancellation(case) < 1000:
+                continue        # wanted: products far larger than the right-hand side
             return case
     raise RuntimeError('no well-posed case found')
 
@@ -526,6 +606,18 @@ def _problem(case, basis_rows=None, data_rows=None):
     d = _apply_common_nan(case, _rows(case['data']) if data_rows is None else data_rows)
     return orc.Problem(case['n'], _desc_for(case), case['value'], b,
                        _data_sub_py(case, d), case['method'], _sigma_np(case['sigma']))
+
+
+def _cancellation(case):
+    """max(|G| x) / max|c| at the non-negative optimum x of the training problem (own enumeration)"""
+    pr = _problem(dict(case, malformed=False))
+    if not (pr.masks_agree and pr.data_ok):
+        return 0.0
+    g = pr.A @ pr.W @ pr.A.T
+    c = pr.A @ pr.W @ pr.t
+    l_ = np.linalg.cholesky(pr.W)
+    x = orc.nnls_bruteforce(l_.T @ pr.A.T, l_.T @ pr.t)
+    return float(np.max(np.abs(g) @ x) / max(float(np.max(np.abs(c))), 1e-300))
 
 
 _STRUCT_CACHE = {}
@@ -570,7 +662,7 @@ def _well_posed(case):
             return False
     if not pr.masks_agree or not pr.data_ok:
         return False
-    if pr.A.shape[1] < pr.A.shape[0] + 2:
+    if pr.A.shape[1] < (3 if case.get('family') == 'fewcond' else pr.A.shape[0] + 2):
         return False
     g = pr.A @ pr.W @ pr.A.T
     if case.get('family') is None:
@@ -582,7 +674,7 @@ def _well_posed(case):
         st = _structure(case, pr)
         if len(st['indep']) < 2 or st['cond'] > 1e7:
             return False
-        if case['family'] in ('collinear', 'dup', 'zero') and not st['rank_deficient']:
+        if case['family'] in ('collinear', 'dup', 'zero', 'fewcond') and not st['rank_deficient']:
             return False
         if case['family'] == 'const' and case['method'].startswith('corr') and not st['rank_deficient']:
             return False
@@ -638,7 +730,27 @@ def _nnls_case(rng, tier, want_multi_drop=False):
         n = rng.randint(4, 5)
         m = n * (n - 1) // 2
         rows = [[rng.randint(-2, 5) for _ in range(m)] for _ in range(k)]
-        style = rng.choice(['noise', 'mix', 'neg', 'nested', 'dup'])
+        style = rng.choice(['noise', 'mix', 'neg', 'nested', 'dup', 'rankdef'])
+        if style == 'rankdef':
+            # round 5: the regressors as fit_regress_nn forms them from a training view with three distinct
+            # conditions: rows over all n conditions restricted (with repeats) to the draw, mean removed in
+            # floating point; handed over bit-exactly (dyadic rationals).  Rank <= 2 with k = 3, 4 regressors.
+            k = rng.randint(3, 4)
+            q = rng.choice([1, 1, 7, 10])
+            full = [[rng.randint(0, 8) / q for _ in range(m)] for _ in range(k)]
+            if rng.random() < 0.6:
+                full[1] = [3 * full[0][e] + rng.choice([-1, 0, 0, 1]) / q for e in range(m)]
+            sel = sorted(_selection(rng, n, list(range(n)), 'index', 'few'))
+            sub = [orc.sub_vec(n, sel, np.array(r)) for r in full]
+            sub = [r[~np.isnan(r)] for r in sub]
+            sub = [r - np.mean(r) for r in sub]
+            th = [rng.choice([0, 1, 2]) for _ in range(k)]
+            yv = sum(t * r for t, r in zip(th, sub)) + np.array([rng.randint(-1, 1) for _ in sub[0]], dtype=float)
+            yv = (yv - yv.min()) / max(float(np.ptp(yv)), 1.0) + 0.01
+            if np.linalg.matrix_rank(np.array(sub), tol=1e-9 * max(float(np.max(np.abs(sub))), 1e-300)) < 2:
+                continue
+            return {'kind': 'nnls', 'n': n, 'rows': [[rat(F(float(v))) for v in r] for r in sub],
+                    'y': [rat(F(float(v))) for v in yv], 'sigma': None, 'style': 'rankdef'}
         if style == 'nested' and k >= 3:
             rows, ys = _family_rows(rng, 'nested', k, m, 1)
             y = ys[0]
@@ -683,6 +795,15 @@ FAMILY_PLAN = [            # (fitter, family, repetitions in the quick tier)
     ('interpolate', 'dup', 1), ('interpolate', 'zero', 1),
     ('interpolate', 'const', 1), ('optimize_positive', 'dup', 1), ('optimize', 'zero', 1),
 ]
+# round 5: rank-deficient TRAINING VIEWS - (fitter, family, repetitions in the quick tier); every entry is
+# generated for all four criteria in turn; `fewcond` = three distinct conditions in the draw; the structured
+# families come with a draw with repeats (duplicated rows) and entries that are not exactly representable, so
+# that the dependency survives mean removal only up to rounding
+VIEW_PLAN = [
+    ('regress_nn', 'fewcond', 16), ('regress', 'fewcond', 8),
+    ('regress_nn', 'dup', 4), ('regress_nn', 'nested', 4), ('regress_nn', 'collinear', 4),
+    ('regress', 'dup', 4), ('regress', 'nested', 4), ('regress', 'collinear', 4),
+]
 
 
 def generate(rng, tier):
@@ -705,6 +826,16 @@ def generate(rng, tier):
             yield _fit_case(rng, fitter, ('cosine_cov', 'corr_cov')[(j // 2) % 2] if und else METHODS[j % 4], tier,
                             family=family, undefined_candidate=und,
                             multi_drop=(fitter == 'regress_nn' and family == 'nested' and j % 3 != 0))
+    j = 0
+    for fitter, family, rep in VIEW_PLAN:
+        for _ in range(rep * (1 if quick else 10)):
+            j += 1
+            yield _fit_case(rng, fitter, METHODS[j % 4], tier, family=family, repeats=True,
+                            inexact=(j // 4) % 2 == 0)
+    for j in range(24 if quick else 240):
+        # ... and with heavy cancellation at the optimum (centring criteria): the case behind the round-5 defect
+        yield _fit_case(rng, 'regress_nn', ('corr', 'corr_cov')[j % 2], tier, family='fewcond', repeats=True,
+                        inexact=j % 4 < 2, cancel=True)
     for k in range(2 if quick else 20):
         # a criterion the regression fitters do not support (pool_rdm knows it): ValueError
         c = _fit_case(rng, ('regress', 'regress_nn')[k % 2], 'cosine', tier)
@@ -734,10 +865,15 @@ def search(rng, tier):
             continue
         r = k % 10
         fam = FAMILIES[(k // 10) % len(FAMILIES)] if (k // 5) % 2 else None
+        view = dict(repeats=True, inexact=(k // 20) % 2 == 0) if fam in ('fewcond', 'dup', 'nested', 'collinear') \
+            and (k // 40) % 2 == 0 else {}
         if r < 3:
-            yield _fit_case(rng, 'regress', METHODS[k % 4], 'quick', small=k < 200, family=fam)
+            yield _fit_case(rng, 'regress', METHODS[k % 4], 'quick', small=k < 200, family=fam, **view)
         elif r < 6:
-            yield _fit_case(rng, 'regress_nn', METHODS[k % 4], 'quick', small=k < 200, family=fam)
+            if fam == 'fewcond' and view and r == 5:
+                view = dict(view, cancel=True)
+            yield _fit_case(rng, 'regress_nn', ('corr', 'corr_cov')[k % 2] if view.get('cancel') else METHODS[k % 4],
+                            'quick', small=k < 200, family=fam, **view)
         elif r == 6:
             yield _fit_case(rng, rng.choice(['select', 'interpolate']), METHODS[k % 4], 'quick', small=True)
         elif r == 7:
@@ -1169,7 +1305,7 @@ def compare(case, impl, model):
             return 'model: result of the active-set loop violates the KKT conditions'
         if not all(model['kkt_impl']):
             return f'_nn_least_squares result {impl["x"]} violates the KKT conditions'
-        if case.get('style') in ('dup', 'nested'):
+        if case.get('style') in ('dup', 'nested', 'rankdef'):
             return None      # minimiser not unique / ill-conditioned: the KKT conditions decide
         if case['sigma'] is None:
             return _vec_diff(impl['x'], model['x'], 1e-7)
@@ -1312,6 +1448,8 @@ def features(case, impl):
         br = ['kind:nnls'] + (['nnls:V'] if case['sigma'] is not None else [])
         if impl and 'x' in impl:
             br.append('nn:active_constraint' if any(t == 0 for t in impl['x']) else 'nn:interior')
+        if case.get('style') == 'rankdef':
+            br.append('nnls:rankdef')
         if case.get('style') in ('dup', 'nested'):
             br.append('nnls:' + case['style'])
             a_ = np.array(_rows(case['rows']), dtype=float)
@@ -1412,6 +1550,21 @@ def features(case, impl):
     fam = case.get('family')
     if fam:
         br.append('family:' + fam)
+    if sel == 'repeats' and fam in ('dup', 'nested', 'collinear') and case['fitter'] in ('regress', 'regress_nn') \
+            and not case.get('malformed'):
+        # duplicated / nested / dependent basis RDMs seen through a draw with repeats
+        br.append('view:repeats:' + fam + ':' + case['fitter'])
+        if case['method'].startswith('corr'):
+            br.append('view:repeats:centred')
+    if st['degenerate'] and case['fitter'] in ('regress', 'regress_nn') and not case.get('malformed'):
+        # round 5: rank-deficient training VIEWS
+        if fam == 'fewcond':
+            br.append('view:fewcond:' + case['fitter'])
+            br.append('view:fewcond:' + case['method'])
+        if case.get('inexact'):
+            br.append('view:inexact:' + case['fitter'])
+        if case.get('cancel'):
+            br.append('view:cancel')
     if st['rank_deficient']:
         br.append('gram:singular:' + ('nn' if case['fitter'] == 'regress_nn' else
                                       'ols' if case['fitter'] == 'regress' else 'other'))
@@ -1650,7 +1803,10 @@ def _oracle_nnls(case):
                      claim='constraint', **feats)
     loss = lambda t: float((y - t @ a) @ w @ (y - t @ a))   # noqa: E731
     l_ = np.linalg.cholesky((w + w.T) / 2)
-    ref, _ = __import__('scipy.optimize').optimize.nnls(l_.T @ a.T, l_.T @ y)
+    if orc.independent_columns(l_.T @ a.T):
+        ref, _ = __import__('scipy.optimize').optimize.nnls(l_.T @ a.T, l_.T @ y)
+    else:
+        ref = orc.nnls_bruteforce(l_.T @ a.T, l_.T @ y)      # scipy's solver is unreliable on dependent columns
     if loss(x) > loss(ref) + 1e-7 * (1 + loss(ref)):
         return _fail('_nn_least_squares is not the constrained least-squares minimiser', loss(x),
                      loss(ref), claim='optimal', **feats)
